@@ -238,9 +238,9 @@ theorem find_filter_other {α : Type} (drop q : α → Bool) (l : List α)
     · simp only [Bool.not_eq_true] at hx
       simp [List.filter_cons, hx, List.find?_cons, ih]
 
-theorem localityOf_congr (nodes : List Node) (p q : Pod) (h : p.node = q.node) :
+theorem localityOf_congr (nodes : List Node) (p q : Pod) (h : p.node = q.node) (hl : p.labels = q.labels) :
     localityOf nodes p = localityOf nodes q := by
-  unfold localityOf; rw [h]
+  unfold localityOf; rw [h, hl]
 
 /-- replays touch neither the stores nor the pod cache -/
 theorem replays_stores (ks : List String) (c : Ctl) :
@@ -419,9 +419,8 @@ theorem pod_write_inv (c : Ctl) (v : Pod) (c' : Ctl) (hph : v.phase ≠ "F") (hs
             | inl hsig =>
               simp only [podView, Option.map, Option.some.injEq, Prod.mk.injEq]
               refine ⟨hsig, ?_⟩
-              apply localityOf_congr
               simp only [podSig, Prod.mk.injEq] at hsig
-              exact hsig.2.2.2.2
+              exact localityOf_congr _ _ _ hsig.2.2.2.2 hsig.2.2.1
             | inr hun =>
               exfalso
               exact hun x hx ea hea (by rw [htg, hsame.1, hsame.2])
